@@ -421,8 +421,60 @@ def helpers_harness(I: Interp) -> None:
                 z3.BoolVal(isinstance(pos, VBool) and pos.concrete() is False))
 
 
+def purity_harness(I: Interp) -> None:
+    """Frame contract (contracts/effects.py) for the classification helpers and the two scanner
+    modules: no function stores into module / class state or mutates a module-level container
+    handed to it - what a reply 'suggests' must not depend on which replies were classified before."""
+    from gallia.services.uds import helpers
+    from . import effects
+    services, identifiers, S, X = mods()
+    n = 0
+    for mod in (helpers, services, identifiers):
+        shared = effects.shared_arguments_mutated(mod)
+        for q, fn, owner in effects.functions_of(mod):
+            if q.endswith(".__init_subclass__"):
+                continue
+            w = effects.shared_state_writes(fn, owner) + shared.get(q, [])
+            n += 1
+            I.prove(f"E-pure({q.split('gallia.')[-1]}):no-store-into-shared-state",
+                    z3.BoolVal(not w), "; ".join(w))
+    I.prove("E-pure:functions-found", z3.BoolVal(n >= 10), str(n))
+
+
+def native_helper_history() -> tuple[bool, str]:
+    """the three predicates on every response code, twice, in every order of first use"""
+    import itertools
+    import subprocess
+    prog = (
+        "import sys, json\n"
+        "import gallia.command\n"
+        "from gallia.services.uds import helpers as H\n"
+        "from gallia.services.uds.core import service as S\n"
+        "from gallia.services.uds.core.constants import UDSErrorCodes as E\n"
+        "fs = [H.suggests_service_not_supported, H.suggests_sub_function_not_supported, H.suggests_identifier_not_supported]\n"
+        "order = [int(x) for x in sys.argv[1]]\n"
+        "out = []\n"
+        "for rnd in range(2):\n"
+        "    for i in order:\n"
+        "        out.append((i, [int(c) for c in E if fs[i](S.NegativeResponse(0x22, c))]))\n"
+        "print(json.dumps(out))\n")
+    import json
+    ref: dict[int, list[int]] = {}
+    for order in itertools.permutations("012"):
+        r = subprocess.run([sys.executable, "-c", prog, "".join(order)], capture_output=True,
+                           text=True, timeout=120)
+        for i, codes in json.loads(r.stdout.strip().splitlines()[-1]):
+            if i in ref and ref[i] != codes:
+                return True, (f"predicate {i} ({['service', 'sub-function', 'identifier'][i]} not "
+                              f"supported) accepts codes {codes} after the calls in order "
+                              f"{''.join(order)}, and {ref[i]} when used first")
+            ref.setdefault(i, codes)
+    return False, "the three predicates give the same answer in every order of use"
+
+
 def build_units(tier: str) -> list[Unit]:
-    return [Unit("services/perform_scan/session-given", services_scan_harness(True),
+    return [Unit("purity/helpers-and-scanners", purity_harness),
+            Unit("services/perform_scan/session-given", services_scan_harness(True),
                  max_paths=100000),
             Unit("services/perform_scan/current-session", services_scan_harness(False),
                  max_paths=100000),
@@ -576,6 +628,8 @@ def native_tallies(kind: str) -> tuple[bool, str]:
 
 
 def native_replay(unit: str, obligation: str, model: dict) -> tuple[bool, str]:
+    if unit.startswith("purity/"):
+        return native_helper_history()
     if unit.startswith("identifiers/perform_scan/") and ("counter" in obligation
                                                           or "D-reported" in obligation):
         return native_tallies(unit.split("/")[-1])
